@@ -102,6 +102,28 @@ def cases():
                 consumers["sibling_redecl_loop"] = [Decl(ty, "r"), For(Decl(INT, "i", I(0)), B("<", V("i", INT), n), Affix("++", True, V("i", INT)),
                                                                        Block([Decl(ty, "t"), ExprStmt(Assign("=", V("r", ty), B("+", V("r", ty), V("t", ty)))),
                                                                               ExprStmt(Assign("=", V("t", ty), src))])), Return(V("r", ty))]
+            # whole-aggregate assignment followed by an in-place write through the copy: whatever the VM's aliasing rule
+            # for arrays and structs is, both optimisation settings must show the same one
+            if scope == "local":
+                att = arr(ty, [3])
+                t_, u_ = V("t", att), V("u", att)
+                nine = I(9) if ty == INT else F(9.5)
+                consumers["array_assign_then_write"] = [Decl(att, "t"), Decl(att, "u"), ExprStmt(Assign("=", Index(t_, I(0), ty), src)),
+                                                        ExprStmt(Assign("=", u_, t_)), ExprStmt(Assign("=", Index(u_, I(0), ty), nine)),
+                                                        Return(B("+", B("*", Index(t_, I(0), ty), two), Index(u_, I(0), ty)))]
+                consumers["array_assign_then_write_dyn"] = [Decl(att, "t"), Decl(att, "u"), ExprStmt(Assign("=", Index(t_, I(1), ty), src)),
+                                                            ExprStmt(Assign("=", u_, t_)), ExprStmt(Assign("=", Index(u_, B("%", B("*", n, n), I(3)), ty), b)),
+                                                            Return(B("+", B("*", Index(t_, I(1), ty), two), B("+", Index(u_, I(1), ty), Index(u_, I(0), ty))))]
+                s1, s2 = V("s1", st), V("s2", st)
+                fld = "k" if ty == INT else "q"
+                consumers["struct_assign_then_write"] = [Decl(st, "s1"), Decl(st, "s2"), ExprStmt(Assign("=", Field(s1, fld, ty), src)),
+                                                         ExprStmt(Assign("=", s2, s1)), ExprStmt(Assign("=", Field(s2, fld, ty), nine)),
+                                                         Return(B("+", B("*", Field(s1, fld, ty), two), Field(s2, fld, ty)))]
+            if scope == "global" and ty == INT:
+                att = arr(INT, [3])
+                consumers["global_array_assign_then_write"] = [Decl(att, "t"), ExprStmt(Assign("=", Index(V("t", att), I(0), INT), src)),
+                                                               ExprStmt(Assign("=", V("ga", att), V("t", att))), ExprStmt(Assign("=", Index(V("ga", att), I(0), INT), I(9))),
+                                                               Return(B("+", B("*", Index(V("t", att), I(0), INT), I(100)), Index(V("ga", att), I(0), INT)))]
             # narrowing stores (the oracle here is the unoptimised build, so the conversion rule itself is not judged)
             if ty == INT:
                 at4 = arr(INT, [4])
@@ -138,11 +160,14 @@ def cases():
                 if cname in ("call_value_between", "call_in_operand"):
                     fns = [bumpv]
                 fns.append(Func("f", params, ty, Block(pre + body), True))
-                m = Module(structs=S if cname == "store_field" else [], globals=gl, funcs=fns)
+                gl2 = list(gl) + ([(arr(INT, [3]), "ga")] if cname == "global_array_assign_then_write" else [])
+                m = Module(structs=S if cname in ("store_field", "struct_assign_then_write") else [], globals=gl2, funcs=fns)
                 inputs = []
                 for av, bv, nv in ((3, 4, 2), (0, 1, 0), (7, -2, 3)):
                     args = {"a": av if ty == INT else av + 0.5, "b": bv if ty == INT else bv + 0.25, "n": nv}
                     g = {"g": 11 if ty == INT else 11.5} if scope == "global" else {}
+                    if cname == "global_array_assign_then_write":
+                        g["ga"] = [1, 2, 3]
                     inputs.append((args, g))
                 out.append(("fwd:%s:%s:%s" % (scope, ty, cname), m, "f", inputs))
     return out
